@@ -25,6 +25,30 @@ class Rec:
         return self.f(*a)
 
 
+class Abort(Exception):
+    """What a wrapped function raises when the harness makes it fail."""
+
+
+class FailingRec(Rec):
+    """Recording function that fails: on its k-th call only (transient failure, fail_at=k), or whenever the first
+    coordinate exceeds `beyond` (a wrapped function with a limited domain, e.g. an interpolator without extrapolation)."""
+    __slots__ = ("fail_at", "beyond", "ncall")
+
+    def __init__(self, f, fail_at=None, beyond=None):
+        Rec.__init__(self, f)
+        self.fail_at, self.beyond, self.ncall = fail_at, beyond, 0
+
+    def __call__(self, *a):
+        k = self.ncall
+        self.ncall += 1
+        if self.fail_at is not None and k == self.fail_at:
+            raise Abort("transient failure of the wrapped function (call %d)" % k)
+        if self.beyond is not None and a[0] > self.beyond:
+            raise Abort("wrapped function called outside its domain")
+        self.calls.append(a)
+        return self.f(*a)
+
+
 def _const(d):
     return (lambda *a: 2.5)
 
